@@ -81,7 +81,8 @@ def expected_flow_names(desc, naming_kind):
     _, ref = naming_fn(naming_kind)
     out = []
     for f in desc["flows"]:
-        out.append(f.get("override") or ref(procs[desc["procs"][f["src"]]], procs[desc["procs"][f["dst"]]]))
+        gen_name = ref(procs[desc["procs"][f["src"]]], procs[desc["procs"][f["dst"]]])
+        out.append(f["override"] if f.get("override") is not None else gen_name)
     return out
 
 
@@ -193,7 +194,11 @@ def definition_cases(draw):
     for i, (f, n) in enumerate(zip(flows, expected_flow_names(desc, naming))):
         if n in seen or draw(st.integers(0, 5)) == 0:
             f["override"] = f"flow no. {i} ({n})"
-        seen.add(f.get("override") or n)
+        seen.add(f["override"] if f.get("override") is not None else n)
+    if flows and draw(st.integers(0, 7)) == 0:
+        # an overriding name is any string, also the empty one (a falsy value that is not "no override")
+        k_ = draw(st.integers(0, len(flows) - 1))
+        flows[k_]["override"] = ""
     stocks = []
     for i in range(draw(st.integers(0, 3))):
         cls = draw(st.sampled_from(STOCK_CLS))
@@ -501,7 +506,7 @@ def file_cases(draw):
     for i, (f, n) in enumerate(zip(base["flows"], expected_flow_names(base, "arrow"))):
         if n in seen:
             f["override"] = f"flow no. {i}"
-        seen.add(f.get("override") or n)
+        seen.add(f["override"] if f.get("override") is not None else n)
     # 0-d parameters cannot be told apart from a bare value column; keep >= 1 dim for file based parameters
     base["params"] = [p for p in base["params"] if p["letters"]]
     fmt = draw(st.sampled_from(["csv", "excel", "excel"]))
